@@ -24,6 +24,8 @@ for d in store:
 rows = []
 stats = {"own_first": 0, "own_after": 0, "other_only": 0, "missed": 0, "total": 0}
 NOTES = {
+ "C10-6": "not a violation: rangeproof_verify is documented '(not secp256k1_context_static)', so answering the static context with the illegal-argument callback is documented behaviour (C20 accepts either)",
+ "C15-6": "needs host randomness whose tagged-hash commitment starts with 32 zero bits (a 2^-32 condition on a hash output; the demonstration ground 2^33 compressions offline): out of reach of generated search within the tiers, recorded as a limit (DESIGN §7)",
  "C06-3": "not decidable by definedness tracking: the change explicitly declassifies secret-dependent Jacobian coordinates before a variable-time inversion (DESIGN §7)",
  "C17-4": "not a violation of the documented contract: it only changes behaviour for inc_aggregate(n_before = 0) on a buffer that does not hold the empty aggregate (header: the first 32*(n_before+1) bytes should hold the input aggsig); not asserted",
 }
